@@ -519,3 +519,49 @@ func H_R3_ExternalIncentive_NewDenom() {
 	vrf.Cover("claimed")
 	vrf.Assert(env.W.BalOf(carol, "uinc").IsZero(), "C13-R3: a deposit made after an external-incentive credit earns nothing from it")
 }
+
+// R1g: a claim on behalf of another recipient (what leveragelp does when it closes a position: sender = the
+// position's address with no shares left, recipient = the owner): the sender's pending amount is paid once and its
+// record is settled; the RECIPIENT's own accrual record (he is an LP of the same pool) is not touched, so his later
+// claim is still bounded by his pro-rata share.
+//
+//vrf:cover claimed
+//vrf:bound as R1a; alice is the sender with a symbolic positive pending amount and no committed shares, bob the recipient with committed shares and a checkpoint
+//vrf:assert-ms 120000
+func H_R1_ClaimForAnotherRecipient() {
+	s := lpSetup()
+	env, ctx := s.env, s.env.Ctx
+	amt := vrf.Int("credit")
+	vrf.Assume(amt.IsPositive())
+	env.W.SetBal(mcAddr, usdc, amt.MulRaw(2))
+	env.Mc.UpdateAccPerShare(ctx, 1, usdc, amt)
+	// alice has left the pool since (her shares went through the withdraw hook): pending is what she accrued
+	share := ammtypes.GetPoolShareDenom(1)
+	ca := env.Comm.GetCommitments(ctx, alice)
+	ca.CommittedTokens = nil
+	env.Comm.SetCommitments(ctx, ca)
+	env.Mc.AfterWithdraw(ctx, 1, alice, s.a)
+	_ = share
+	bobBefore, foundB := env.Mc.GetUserRewardInfo(ctx, bob, 1, usdc)
+	vrf.Assert(foundB, "setup: the recipient has an accrual record")
+	if err := env.Mc.ClaimRewards(ctx, alice, []uint64{1}, bob); err != nil {
+		return
+	}
+	vrf.Cover("claimed")
+	paidToBob := env.W.BalOf(bob, usdc)
+	vrf.Assert(paidToBob.Mul(s.tot).LTE(amt.Mul(s.a)), "C13-R1: a claim for another recipient pays at most the sender's pro-rata share")
+	bobAfter, stillThere := env.Mc.GetUserRewardInfo(ctx, bob, 1, usdc)
+	vrf.Assert(stillThere, "C13-R1: the recipient's own accrual record survives a claim made on his behalf")
+	if stillThere {
+		vrf.Assert(bobAfter.RewardDebt.Equal(bobBefore.RewardDebt), "C13-R1: the recipient's checkpoint is unchanged by a claim made on his behalf")
+	}
+	// the sender's pending amount cannot be claimed a second time
+	before := env.W.BalOf(bob, usdc)
+	_ = env.Mc.ClaimRewards(ctx, alice, []uint64{1}, bob)
+	vrf.Assert(env.W.BalOf(bob, usdc).Equal(before), "C13-R1: the sender's pending amount is paid once")
+	// and bob's own claim is still bounded by his share
+	if env.Mc.ClaimRewards(ctx, bob, []uint64{1}, bob) == nil {
+		own := env.W.BalOf(bob, usdc).Sub(before)
+		vrf.Assert(own.Mul(s.tot).LTE(amt.Mul(s.b)), "C13-R1: the recipient's own claim is still at most his pro-rata share")
+	}
+}
